@@ -36,14 +36,14 @@ Definition is_class_or_static (md : method) : bool :=
    node.  For self.m() the Attribute node is the Value of the Call node. *)
 Definition mention_vars (m : mention) : list name :=
   match m_kind m with
-  | KAttr obj x => if (obj =? model_self) && reached lcom_walk_fields 1 (m_pos m) [] then [x] else []
-  | KCall obj x => if (obj =? model_self) && reached lcom_walk_fields 1 (m_pos m) [FValue] then [x] else []
+  | KAttr obj x => if (obj =? model_self) && reached_at lcom_walk_fields 1 (m_pos m) (m_slots m) [] then [x] else []
+  | KCall obj x => if (obj =? model_self) && reached_at lcom_walk_fields 1 (m_pos m) (m_slots m) [FValue] then [x] else []
   | KInst _ => []
   end.
 (* extractMethodCalls lcom.go:295-307: Call nodes whose Value is a self.xxx Attribute *)
 Definition mention_calls (m : mention) : list name :=
   match m_kind m with
-  | KCall obj x => if (obj =? model_self) && reached lcom_walk_fields 1 (m_pos m) [] then [x] else []
+  | KCall obj x => if (obj =? model_self) && reached_at lcom_walk_fields 1 (m_pos m) (m_slots m) [] then [x] else []
   | _ => []
   end.
 
